@@ -54,7 +54,7 @@ static void sb_reserve(sb_t *s, size_t extra)
         s->buf = (char *)probe_realloc(s->buf, ncap);
         if (s->buf == NULL)
         {
-            abort();
+            harness_die("dump: out of memory");
         }
         s->cap = ncap;
     }
@@ -110,7 +110,7 @@ static int pset_add(pset_t *ps, uintptr_t p)
         size_t j;
         if (ns == NULL)
         {
-            abort();
+            harness_die("dump: out of memory");
         }
         memset(ns, 0, ncap * sizeof(uintptr_t));
         for (j = 0; j < ps->cap; j++)
